@@ -172,21 +172,30 @@ func vxCopyFields(fs [][]byte) []string {
 	return out
 }
 
-func vxDoc(L int) []byte {
+func vxDoc(L int, delim byte) []byte {
 	d := vx.Bytes(L)
 	for _, b := range d {
-		vx.Assume(vx.Or(vx.Or(b == ',', b == '"'), vx.Or(vx.Or(b == '\n', b == '\r'), vx.Or(b == 'a', b == 'b'))))
+		if delim == ',' {
+			vx.Assume(vx.Or(vx.Or(b == ',', b == '"'), vx.Or(vx.Or(b == '\n', b == '\r'), vx.Or(b == 'a', b == 'b'))))
+		} else {
+			// a delimiter outside ASCII: cells hold Latin-1 bytes, lone lead and continuation bytes of UTF-8
+			vx.Assume(vx.Or(vx.Or(b == delim, b == '"'), vx.Or(vx.Or(b == '\n', b == 0xe9), vx.Or(b == 'a', vx.Or(b == 0xc3, b == 0xa9)))))
+		}
 	}
 	return d
 }
 
 func VX_C12_scan() {
 	L, capc := vx.ParamInt("L"), vx.ParamInt("cap")
-	d := vxDoc(L)
-	want, ok := vxRefParse(d, ',')
+	delim := byte(',')
+	if vx.HasParam("delim") {
+		delim = byte(vx.ParamInt("delim"))
+	}
+	d := vxDoc(L, delim)
+	want, ok := vxRefParse(d, delim)
 	vx.Assume(ok)
 	src := &vxReader{d: d, eofWithData: vx.Bool(), failAt: -1, whole: vx.ParamStr("sched") == "whole"}
-	rd := Reader{fields: fields{buffer: bufferedReader{r: &eofReaderWrapper{r: src}, data: make([]byte, 0, capc)}, delimiter: ','}, fieldsBuffer: make([][]byte, 0, 16)}
+	rd := Reader{fields: fields{buffer: bufferedReader{r: &eofReaderWrapper{r: src}, data: make([]byte, 0, capc)}, delimiter: delim}, fieldsBuffer: make([][]byte, 0, 16)}
 	var got [][]string
 	for rd.Next() {
 		got = append(got, vxCopyFields(rd.Fields()))
